@@ -12,28 +12,29 @@ variable {α : Type} [Num α]
 
 /-- Totality: none of the model's three refusals can occur on a dataset that `load` produced. -/
 theorem classify_total (pick : List Nat → Nat) (s j : α) (db : Loaded α)
-    (h : wellFormedLoadedB db = true) : ∃ c, classifyAll pick s j db = .ok c := by
-  sorry
+    (h : wellFormedLoadedB db = true) : ∃ c, classifyAll pick s j db = .ok c :=
+  classifyAll_total pick s j db h
 
 /-- Index level (one gap-free stretch): no storm and no rise appears twice. -/
 theorem pairing_injective_idx (pick : List Nat → Nat) (s j : α) (dt : Int) (zeta rain : List α) :
     ((classifyIdx pick s j dt zeta rain).pairs.map (·.1)).Nodup ∧
-    ((classifyIdx pick s j dt zeta rain).pairs.map (·.2)).Nodup := by
-  sorry
+    ((classifyIdx pick s j dt zeta rain).pairs.map (·.2)).Nodup :=
+  idxPairs_nodup pick (heavy s rain) (jumps j dt zeta)
 
 /-- Index level: each recorded pair is a heavy-rain run and a rise run sharing a time step. -/
 theorem pairing_overlaps_idx (pick : List Nat → Nat) (s j : α) (dt : Int) (zeta rain : List α)
     (p : (Nat × Nat) × (Nat × Nat)) (hp : p ∈ (classifyIdx pick s j dt zeta rain).pairs) :
     p.1 ∈ trueRuns (heavy s rain) ∧ p.2 ∈ trueRuns (jumps j dt zeta) ∧
     ∃ i, p.1.1 ≤ i ∧ i < p.1.2 ∧ p.2.1 ≤ i ∧ i < p.2.2 := by
-  sorry
+  obtain ⟨h1, h2, h3⟩ := idxPairs_sound pick (heavy s rain) (jumps j dt zeta) p hp
+  exact ⟨h1, h2, (overlaps_iff' _ _).1 h3⟩
 
 /-- Dataset level: storm start epochs are pairwise distinct and rise start epochs are pairwise
     distinct (the UNIQUE / PRIMARY KEY constraints of the pairing table cannot fire). -/
 theorem pairing_injective (pick : List Nat → Nat) (s j : α) (db : Loaded α)
     (h : wellFormedLoadedB db = true) (c : Classified) (hc : classifyAll pick s j db = .ok c) :
-    (c.pairs.map (·.1.1)).Nodup ∧ (c.pairs.map (·.2.1)).Nodup := by
-  sorry
+    (c.pairs.map (·.1.1)).Nodup ∧ (c.pairs.map (·.2.1)).Nodup :=
+  pairs_nodup_of_ok pick s j db h c hc
 
 /-- Dataset level: each recorded pair shares a whole time step `[t, t + step)`: it lies inside the
     storm `[start, thru)` and inside the rise `[start, thru]`; and both rows satisfy the schema's
@@ -42,7 +43,40 @@ theorem pairing_overlaps (pick : List Nat → Nat) (s j : α) (db : Loaded α)
     (h : wellFormedLoadedB db = true) (c : Classified) (hc : classifyAll pick s j db = .ok c)
     (p : (Int × Int) × (Int × Int)) (hp : p ∈ c.pairs) :
     p.1.1 < p.1.2 ∧ p.2.1 < p.2.2 ∧
-    ∃ t, p.1.1 ≤ t ∧ t + db.step ≤ p.1.2 ∧ p.2.1 ≤ t ∧ t + db.step ≤ p.2.2 := by
-  sorry
+    ∃ t, p.1.1 ≤ t ∧ t + db.step ≤ p.1.2 ∧ p.2.1 ≤ t ∧ t + db.step ≤ p.2.2 :=
+  pairs_overlap_of_ok pick s j db h c hc p hp
+
+/-! ### Non-vacuity
+
+The dataset `Example.db` (two stretches separated by a grid instant without data, exact `Rat`
+arithmetic; see `Lemmas/Classify.lean`) satisfies the hypothesis of the theorems above, is
+classified without refusal, and the recorded pairing is not empty.  All evaluations are done
+by the kernel (`decide +kernel`: no native code, no extra axiom). -/
+namespace Example
+
+example : wellFormedLoadedB db = true := by decide +kernel
+
+/-- one storm/rise pair per stretch, for both schedules -/
+example : (classifyAll pickFirst s j db).toOption.map (·.pairs) =
+    some [((3600, 10800), (3600, 7200)), ((25200, 32400), (28800, 32400))] := by decide +kernel
+example : (classifyAll pickLast s j db).toOption.map (·.pairs) =
+    some [((3600, 10800), (3600, 7200)), ((25200, 32400), (28800, 32400))] := by decide +kernel
+
+/-- the theorems apply to it -/
+example : ∃ c, classifyAll pickFirst s j db = .ok c :=
+  classify_total pickFirst s j db (by decide +kernel)
+
+/-- the well-formedness hypothesis is needed: without grid labels classification is refused -/
+example : wellFormedLoadedB dbNoLabels = false := by decide +kernel
+example : (classifyAll pickFirst s j dbNoLabels).toOption.map (·.pairs) = none := by decide +kernel
+
+/-- index level: two storms `[0,1)`, `[2,4)` compete for the rise `[0,3)`; the rise goes to the storm
+    starting at the same step, the other storm stays unpaired -/
+example : (classifyIdx pickFirst s j 3600 [0, 2, 4, 6, 6] [5, 0, 5, 5, 0]).pairs = [((0, 1), (0, 3))] := by
+  decide +kernel
+example : trueRuns (heavy s [5, 0, 5, 5, 0]) = [(0, 1), (2, 4)] ∧
+    trueRuns (jumps j 3600 [0, 2, 4, 6, 6]) = [(0, 3)] := by decide +kernel
+
+end Example
 
 end Spowtd
